@@ -407,9 +407,15 @@ Idle == n.phase = "idle"
 Env == Idle /\ n.ev < MaxEvents
 Tick == [n EXCEPT !.ev = @ + 1]
 
-CacheCreate(a) == /\ Env /\ n.gen[a] < MaxGen
+CacheCreate(a) == /\ Env /\ n.gen[a] < MaxGen /\ a \notin DOMAIN st.cache
                   /\ st' = DoCacheCreate(st, a, n.gen[a] + 1)
                   /\ n' = [n EXCEPT !.ev = @ + 1, !.gen[a] = @ + 1]
+(* the entry is replaced in place (eventmgr re-caching an instance that was  *)
+(* evicted and placed here again while it was disconnected): rename over the *)
+(* old file - a new generation, one CREATED event, NO delete event          *)
+CacheReplace(a) == /\ Env /\ n.gen[a] < MaxGen /\ a \in DOMAIN st.cache
+                   /\ st' = DoCacheCreate(st, a, n.gen[a] + 1)
+                   /\ n' = [n EXCEPT !.ev = @ + 1, !.gen[a] = @ + 1]
 CacheDelete(a) == /\ Env /\ a \in DOMAIN st.cache
                   /\ st' = DoCacheDelete(st, a) /\ n' = Tick
 ReadyOn == /\ Env /\ st' = DoReadyOn(st) /\ n' = Tick
@@ -464,6 +470,7 @@ AllLinkNames == {NameI(a) : a \in Instances} \cup {NameC(c) : c \in AllConts}
 
 Next ==
   \/ \E a \in Instances : CacheCreate(a)
+  \/ \E a \in Instances : CacheReplace(a)
   \/ \E a \in Instances : CacheDelete(a)
   \/ ReadyOn
   \/ ReadyOff
@@ -520,6 +527,18 @@ PropInvoke == [][\A nm \in DOMAIN st.cleanup : IsInvoke(nm) =>
                    /\ st'.running = st.running /\ st'.cleaning = st.cleaning]_vars
 PropDirsByInvoke == [][DOMAIN st.apps \ DOMAIN st'.apps # {} =>
                          \E nm \in DOMAIN st.cleanup : IsInvoke(nm)]_vars
+
+(* Witnesses (to be VIOLATED: TLC's counterexample is a history generator).  *)
+(* A readiness flip during which a running instance's entry was replaced in *)
+(* place: nothing of it handled yet / the deletion of .ready handled.       *)
+FlipReplaced(a) == /\ a \in DOMAIN st.running /\ a \in DOMAIN st.cache
+                   /\ st.running[a] # Cont(a, st.cache[a]) /\ st.ready
+WitnessFlipA == ~ \E a \in Instances :
+                    /\ FlipReplaced(a) /\ st.active
+                    /\ st.pending = <<Ev("D", READY), Ev("C", a), Ev("C", READY)>>
+WitnessFlipB == ~ \E a \in Instances :
+                    /\ FlipReplaced(a) /\ ~st.active
+                    /\ st.pending = <<Ev("C", a), Ev("C", READY)>>
 
 TypeOK == /\ DOMAIN st.cache \subseteq Instances
           /\ DOMAIN st.apps \subseteq AllConts
